@@ -122,6 +122,26 @@ def harness_env(variant="plain"):
     return e
 
 
+# ----------------------------------------------------------------------------- generated specification data
+
+def gen_dir(ensure=True):
+    """Directory with the data generated from the repository's reference text (schemes.json, dbdtable.json,
+    SchData.tla, DbdTable.tla); regenerated when the text changes."""
+    d = os.path.join(ROOT, "build", repo_key(), "gen")
+    if ensure:
+        rc, out = sh([sys.executable, os.path.join(ROOT, "tools", "gen_spec_data.py"), repo(), d], timeout=300)
+        if rc != 0:
+            raise InfraError("gen_spec_data failed: " + out[-2000:])
+    return d
+
+
+def ref_dir():
+    rc, out = sh([os.path.join(ROOT, "bin", "build_ref")], timeout=600)
+    if rc != 0:
+        raise InfraError("build_ref failed: " + out[-2000:])
+    return out.strip().splitlines()[-1]
+
+
 # ----------------------------------------------------------------------------- TLC
 
 TLC_JAR = "/opt/veriftools/tla/tla2tools.jar:/opt/veriftools/tla/CommunityModules-deps.jar"
@@ -161,7 +181,7 @@ def tlc(module, cfg, *, spec_dir=None, workers=None, simulate=None, depth=None, 
     """Run TLC on <spec_dir>/<module>.tla with <cfg> (path relative to spec_dir)."""
     spec_dir = spec_dir or SPEC
     md = workdir("tlc-" + module)
-    jopts = ["-XX:+UseParallelGC", "-Xmx" + xmx]
+    jopts = ["-XX:+UseParallelGC", "-Xmx" + xmx, "-DTLA-Library=" + gen_dir(False)]
     if deque:
         jopts.append("-Dtlc2.tool.queue.IStateQueue=StateDeque")
     cmd = ["java"] + jopts + ["-cp", TLC_JAR, "tlc2.TLC", "-metadir", md, "-noGenerateSpecTE", "-config", cfg]
